@@ -359,6 +359,316 @@ func asmCanonical(norm string, arm bool) string {
 	return strings.Join(out, "\n")
 }
 
+// ---- canonical instruction order ----
+//
+// Within a basic block (no label inside, a jump / RET only at the end) the
+// instructions are re-ordered into a deterministic topological order of their
+// dependency graph, so that moving an instruction past instructions it does not
+// depend on leaves the digest unchanged.  The dependency relation is a superset
+// of the true one (so equal digests still mean "legal re-orderings of each
+// other", never more):
+//   - registers: every operand is read; the last operand is also written
+//     (X<n>/Y<n> are one register; AL/AH/AX... are one register);
+//   - flags: every instruction that is not a SIMD instruction or a move reads
+//     and writes the flags; conditional jumps read them;
+//   - memory: loads commute with loads; a store commutes with another access only
+//     if both are disp(base) with the same base register, no index, known sizes
+//     and disjoint byte ranges (the register dependencies order them against
+//     any redefinition of the base); FP-frame slots only conflict with the same
+//     slot; read-only DATA symbols conflict with nothing; anything else conflicts;
+//   - raw-encoded or unparsed instructions, CPUID, and unknown operand forms are barriers.
+func asmRegKey(r string) string {
+	if len(r) >= 2 && (r[0] == 'X' || r[0] == 'Y') && r[1] >= '0' && r[1] <= '9' {
+		return "V" + r[1:]
+	}
+	switch r {
+	case "AL", "AH":
+		return "AX"
+	case "BL", "BH":
+		return "BX"
+	case "CL", "CH":
+		return "CX"
+	case "DL", "DH":
+		return "DX"
+	}
+	return r
+}
+
+// asmOrdinary: mnemonics whose only effects are: read every operand, write the last
+// operand, and (for the non-SIMD, non-move ones) read/write the flags.  No implicit
+// register, no stack access, no partial effect on registers that are not operands.
+var asmOrdinary = func() map[string]bool {
+	m := map[string]bool{}
+	for _, w := range strings.Fields(`ADDL ADDQ ANDL ANDQ BTL CMPL CMPQ DECQ IMULL INCQ LEAQ
+		MOVB MOVBQZX MOVD MOVHLPS MOVL MOVLHPS MOVO MOVOU MOVQ MOVW MOVWLSX NEGQ ORL
+		PACKSSLW PACKUSWB PADDB PADDD PADDL PADDQ PADDW PAND PANDN PCMPEQL PCMPEQW PCMPGTL PEXTRW
+		PMADDWL PMAXSW PMINSW PMULHW PMULLW POR PSADBW PSHUFD PSHUFLW PSLLL PSLLW PSRAL PSRAW
+		PSRLDQ PSRLL PSRLQ PSUBB PSUBL PSUBUSW PSUBW PUNPCKHBW PUNPCKHLQ PUNPCKHWL PUNPCKLBW
+		PUNPCKLLQ PUNPCKLWL PXOR SARQ SHLL SHLQ SHRL SHRQ SUBL SUBQ TESTQ
+		VBROADCASTI128 VEXTRACTI128 VINSERTI128 VMOVDQA VMOVDQU VPACKSSDW VPACKUSWB VPADDB VPADDD
+		VPADDQ VPADDW VPAND VPANDN VPBROADCASTD VPBROADCASTQ VPBROADCASTW VPCMPEQD VPCMPEQW
+		VPCMPGTD VPERMQ VPMADDWD VPMAXSW VPMINSW VPMULHW VPOR VPSHUFD VPSLLD VPSLLW VPSRAD VPSRAW
+		VPSRLD VPSRLQ VPSUBB VPSUBD VPSUBUSW VPSUBW VPUNPCKHBW VPUNPCKHDQ VPUNPCKHQDQ VPUNPCKHWD
+		VPUNPCKLBW VPUNPCKLDQ VPUNPCKLQDQ VPUNPCKLWD VPXOR XORL XORQ`) {
+		m[w] = true
+	}
+	return m
+}()
+
+func asmIsSIMD(mn string) bool {
+	return strings.HasPrefix(mn, "P") || strings.HasPrefix(mn, "V") || mn == "MOVO" || mn == "MOVOU" ||
+		mn == "MOVLHPS" || mn == "MOVHLPS" || mn == "MOVD"
+}
+
+func asmAccessSize(mn string, ops []asmOp) int64 {
+	switch mn {
+	case "MOVOU", "MOVO":
+		return 16
+	case "VMOVDQU", "VMOVDQA":
+		for _, o := range ops {
+			if o.kind == "R" && strings.HasPrefix(o.name, "Y") {
+				return 32
+			}
+		}
+		return 16
+	case "MOVQ":
+		return 8
+	case "MOVL", "MOVD":
+		return 4
+	case "MOVW", "MOVWLSX":
+		return 2
+	case "MOVB", "MOVBQZX":
+		return 1
+	}
+	return 0 // unknown
+}
+
+type asmEff struct {
+	reads, writes map[string]bool
+	barrier       bool
+	// memory access: kind "" none, "ld", "st"; class: "fp:<slot>", "ro", "mem"
+	mkind, mclass, mbase string
+	mlo, mhi             int64
+	mknown               bool
+}
+
+func asmEffects(it asmItem) asmEff {
+	e := asmEff{reads: map[string]bool{}, writes: map[string]bool{}}
+	mn := it.mn
+	if it.label != "" || !asmOrdinary[mn] {
+		// labels, jumps, RET, raw bytes, CPUID, VZEROUPPER, and every mnemonic whose
+		// operand roles have not been reviewed (implicit registers, stack, ...)
+		e.barrier = true
+		return e
+	}
+	if !asmIsSIMD(mn) && !strings.HasPrefix(mn, "MOV") && !strings.HasPrefix(mn, "LEA") {
+		e.reads["FLAGS"], e.writes["FLAGS"] = true, true
+	}
+	nm := 0
+	for i, o := range it.ops {
+		last := i == len(it.ops)-1
+		switch o.kind {
+		case "R":
+			e.reads[asmRegKey(o.name)] = true
+			if last {
+				e.writes[asmRegKey(o.name)] = true
+			}
+		case "Imm":
+		case "Mem":
+			nm++
+			e.reads[asmRegKey(o.name)] = true
+			if o.index != "" {
+				e.reads[asmRegKey(o.index)] = true
+			}
+			e.mkind, e.mclass = "ld", "mem"
+			if last {
+				e.mkind = "st"
+			}
+			if mn == "LEAQ" {
+				e.mkind, e.mclass = "", ""
+				continue
+			}
+			if sz := asmAccessSize(mn, it.ops); sz > 0 && o.index == "" {
+				e.mbase, e.mlo, e.mhi, e.mknown = asmRegKey(o.name), o.n, o.n+sz, true
+			}
+		case "FP":
+			nm++
+			e.mkind, e.mclass = "ld", "fp:"+o.name
+			if last {
+				e.mkind = "st"
+			}
+		case "Sym":
+			if strings.HasPrefix(o.name, "?") {
+				e.barrier = true
+			}
+			nm++
+			if e.mkind == "" {
+				e.mkind, e.mclass = "ld", "ro"
+			}
+			if last {
+				e.barrier = true // a store to a symbol: not expected
+			}
+		}
+	}
+	if nm > 1 {
+		e.barrier = true
+	}
+	return e
+}
+
+func asmMemConflict(a, b asmEff) bool {
+	if a.mkind == "" || b.mkind == "" {
+		return false
+	}
+	if a.mkind == "ld" && b.mkind == "ld" {
+		return false
+	}
+	if a.mclass == "ro" || b.mclass == "ro" {
+		return false
+	}
+	if strings.HasPrefix(a.mclass, "fp:") || strings.HasPrefix(b.mclass, "fp:") {
+		return true // a store next to an argument/result slot access: keep the order
+	}
+	if a.mknown && b.mknown && a.mbase == b.mbase {
+		return a.mlo < b.mhi && b.mlo < a.mhi
+	}
+	return true
+}
+
+func asmDepends(a, b asmEff) bool { // b (later) must stay after a (earlier)
+	if a.barrier || b.barrier {
+		return true
+	}
+	for r := range a.writes {
+		if b.reads[r] || b.writes[r] {
+			return true
+		}
+	}
+	for r := range a.reads {
+		if b.writes[r] {
+			return true
+		}
+	}
+	return asmMemConflict(a, b)
+}
+
+// shape: the instruction with register names abstracted (the renaming is applied afterwards)
+func asmShape(it asmItem) string {
+	var sb strings.Builder
+	sb.WriteString(it.mn)
+	for _, o := range it.ops {
+		switch o.kind {
+		case "R":
+			c := "G"
+			if k := asmRegKey(o.name); strings.HasPrefix(k, "V") {
+				c = string(o.name[0])
+			}
+			sb.WriteString(" " + c)
+		case "Mem":
+			fmt.Fprintf(&sb, " %d(_)", o.n)
+			if o.index != "" {
+				fmt.Fprintf(&sb, "(_*%d)", o.scale)
+			}
+		default:
+			sb.WriteString(" " + o.text())
+		}
+	}
+	return sb.String()
+}
+
+func asmReorder(items []asmItem) []asmItem {
+	var out []asmItem
+	flush := func(blk []asmItem) {
+		n := len(blk)
+		effs := make([]asmEff, n)
+		for i := range blk {
+			effs[i] = asmEffects(blk[i])
+		}
+		indeg := make([]int, n)
+		succ := make([][]int, n)
+		for i := 0; i < n; i++ {
+			for j := i + 1; j < n; j++ {
+				if asmDepends(effs[i], effs[j]) {
+					succ[i] = append(succ[i], j)
+					indeg[j]++
+				}
+			}
+		}
+		done := make([]bool, n)
+		for k := 0; k < n; k++ {
+			best := -1
+			for i := 0; i < n; i++ {
+				if done[i] || indeg[i] != 0 {
+					continue
+				}
+				if best < 0 || asmShape(blk[i]) < asmShape(blk[best]) {
+					best = i // ties: the earlier one (stable)
+				}
+			}
+			done[best] = true
+			out = append(out, blk[best])
+			for _, j := range succ[best] {
+				indeg[j]--
+			}
+		}
+	}
+	var blk []asmItem
+	for _, it := range items {
+		if it.label != "" {
+			flush(blk)
+			blk = nil
+			out = append(out, it)
+			continue
+		}
+		blk = append(blk, it)
+		if it.mn == "RET" || strings.HasPrefix(it.mn, "J") || it.mn == "CALL" {
+			flush(blk)
+			blk = nil
+		}
+	}
+	flush(blk)
+	return out
+}
+
+func asmOpText(o asmOp) string {
+	switch o.kind {
+	case "R":
+		return o.name
+	case "Imm":
+		return fmt.Sprintf("$%d", o.n)
+	case "Mem":
+		s := fmt.Sprintf("%d(%s)", o.n, o.name)
+		if o.index != "" {
+			s += fmt.Sprintf("(%s*%d)", o.index, o.scale)
+		}
+		return s
+	case "FP":
+		return fmt.Sprintf("%s+%d(FP)", o.name, o.n)
+	}
+	return fmt.Sprintf("%s+%d(SB)", o.name, o.n)
+}
+
+func asmRender(items []asmItem) string {
+	var sb strings.Builder
+	for _, it := range items {
+		if it.label != "" {
+			sb.WriteString(it.label + ":\n")
+			continue
+		}
+		sb.WriteString(it.mn)
+		for i, o := range it.ops {
+			if i == 0 {
+				sb.WriteString(" ")
+			} else {
+				sb.WriteString(", ")
+			}
+			sb.WriteString(asmOpText(o))
+		}
+		sb.WriteString("\n")
+	}
+	return sb.String()
+}
+
 func genAsmAmd64() (string, string) {
 	var files []string
 	for _, d := range []string{"internal/dsp", "internal/lossy"} {
@@ -522,6 +832,8 @@ func genAsmAmd64() (string, string) {
 						it := asmItem{mn: st[:i]}
 						if op, ok := asmParseOperand(st[i+1:], macros); ok {
 							it.ops = append(it.ops, op)
+						} else {
+							it.ops = append(it.ops, asmOp{kind: "Sym", name: "?" + strings.TrimSpace(st[i+1:])})
 						}
 						cur.items = append(cur.items, it)
 					}
@@ -640,8 +952,21 @@ func genAsmAmd64() (string, string) {
 		if i == len(routines)-1 {
 			sep = ""
 		}
-		h := sha256.Sum256([]byte(asmCanonical(r.norm, strings.HasSuffix(r.file, "_arm64.s"))))
-		fmt.Fprintf(&b, " (\"%s\", \"%s\")%s\n", r.name, hex.EncodeToString(h[:8]), sep)
+		var dg string
+		switch {
+		case asmClaimed[r.name]:
+			// the lane model of this routine is derived from its instruction list by proof
+			// (Arch/ArchAsm.v): any edit is re-judged by that proof, no pin needed
+			dg = "proved"
+		case strings.HasSuffix(r.file, "_arm64.s"):
+			h := sha256.Sum256([]byte(asmCanonical(r.norm, true)))
+			dg = hex.EncodeToString(h[:8])
+		default:
+			hdr := strings.SplitN(r.norm, "\n", 2)[0]
+			h := sha256.Sum256([]byte(asmCanonical(hdr+"\n"+asmRender(asmReorder(r.items)), false)))
+			dg = hex.EncodeToString(h[:8])
+		}
+		fmt.Fprintf(&b, " (\"%s\", \"%s\")%s\n", r.name, dg, sep)
 	}
 	b.WriteString("].\n\n")
 	dh := sha256.New()
